@@ -325,7 +325,7 @@ var hostile = []Case{
 	{Unlock: pbt.Hex{0x51}, Lock: pbt.Hex{0x02, 0xff, 0xff, 0x59, 0x99}, Flags: 0, CtxKind: 1, NIn: 1},
 	{Unlock: pbt.Hex{0x51}, Lock: pbt.Hex{0x51, 0xb1}, Flags: uint32(interp.FlagCLTV), CtxKind: 0, NIn: 1}, // CLTV without a tx
 	{Unlock: pbt.Hex{0x51}, Lock: pbt.Hex{0x51, 0xb2}, Flags: uint32(interp.FlagCSV), CtxKind: 0, NIn: 1},
-	{Unlock: pbt.Hex{0x51}, Lock: pbt.Hex{0x51}, Flags: 0, CtxKind: 2, NIn: 1},                            // nil previous output + scripts
+	{Unlock: pbt.Hex{0x51}, Lock: pbt.Hex{0x51}, Flags: 0, CtxKind: 2, NIn: 1}, // nil previous output + scripts
 	{Unlock: pbt.Hex{0x51}, Lock: pbt.Hex{0x51}, Flags: 0, CtxKind: 3, NIn: 1},
 	{Unlock: pbt.Hex{0x51}, Lock: pbt.Hex{0x51}, Flags: 0, CtxKind: 1, NIn: 1, Idx: -1},
 	{Unlock: pbt.Hex{0x51}, Lock: pbt.Hex{0x51}, Flags: 0, CtxKind: 1, NIn: 2, Idx: 2},
